@@ -243,6 +243,30 @@ func genC02(seed, index uint64, tier string) *Plan {
 			}
 		}
 	}
+	if g.Chance(0.12) && len(p.Charts) > 1 {
+		// a resource keeps kind, name, namespace and group but is written at another version of the group in some chart
+		// versions (like PodDisruptionBudget policy/v1beta1 -> policy/v1): it is the same object and must survive the upgrade
+		odd := g.N(2)
+		for ci := range p.Charts {
+			has := false
+			for si := range p.Charts[ci].Slots {
+				s := &p.Charts[ci].Slots[si]
+				if s.Kind == "Widget" && s.Hook == nil && s.Group == "" {
+					has = true
+					if ci%2 == odd {
+						s.APIVer = "v1beta1"
+					}
+				}
+			}
+			if !has {
+				s := ResSlot{Kind: "Widget", Name: "bumped", File: "bumped.yaml", Marker: g.Marker(), Data: map[string]string{"size": g.Word()}}
+				if ci%2 == odd {
+					s.APIVer = "v1beta1"
+				}
+				p.Charts[ci].Slots = append(p.Charts[ci].Slots, s)
+			}
+		}
+	}
 	// bystanders
 	for i := 0; i < g.N(4); i++ {
 		kind := g.Pick("ConfigMap", "Secret", "Service", "ServiceAccount")
